@@ -96,6 +96,30 @@ def insert_get_proofs(body, answers):
     return "\n".join(out)
 
 
+SIMPLE = re.compile(r"^[A-Za-z_][A-Za-z0-9_]*$")
+
+
+def plain_clause(term_text):
+    """an assertion that is a clause over plain symbols: frozenset of (atom, positive?) ; else None"""
+    try:
+        sx = sattrace.parse_sexps(term_text)
+    except ValueError:
+        return None
+    if len(sx) != 1:
+        return None
+    t = sx[0]
+    lits = t[1:] if isinstance(t, list) and t and t[0] == "or" else [t]
+    out = set()
+    for l in lits:
+        if isinstance(l, str) and SIMPLE.match(l) and l not in ("true", "false"):
+            out.add((l, True))
+        elif isinstance(l, list) and len(l) == 2 and l[0] == "not" and isinstance(l[1], str) and SIMPLE.match(l[1]) and l[1] not in ("true", "false"):
+            out.add((l[1], False))
+        else:
+            return None
+    return frozenset(out)
+
+
 def clause_term(lits):
     ts = [a if p else "(not %s)" % a for a, p in lits]
     if not ts:
@@ -348,8 +372,22 @@ def run(ctx):
         level_asserts = [l["assertions"] for l in P["state"]["levels"]]
         res = {}
         queries = []
+        # exact match first: the leaf (without its guard) is literally an asserted clause of a level it may use
+        asserted = []
+        acc = set()
+        for la in level_asserts:
+            for a in la:
+                cl = plain_clause(a)
+                if cl is not None:
+                    acc.add(cl)
+            asserted.append(set(acc))
         for i in infos:
             if i["kind"] in ("base", "guarded"):
+                body = frozenset((a, p) for a, p in i["lits"] if not FRAME.match(a))
+                if body in asserted[i["need_levels"] - 1]:
+                    i["exact"] = True
+                    res[i["name"]] = ("sat", "unsat")
+                    continue
                 key = (tuple(tuple(a) for a in level_asserts[:i["need_levels"]]), i["term"])
                 i["key"] = key
                 if key in cache:
@@ -387,7 +425,7 @@ def run(ctx):
                 leafres[pi] = r
     ctx.extra["t_oracle_s"] = round(_t.time() - t0, 1)
 
-    nleaves = dict(activation=0, guarded=0, base=0, theory=0, undecided=0, elided=0, aux=0)
+    nleaves = dict(activation=0, exact=0, guarded=0, base=0, theory=0, undecided=0, elided=0, aux=0)
     admitted_lines, admitted_owner = [], []
     for pi, (P, lr) in enumerate(zip(proofs, leafres)):
         job = P["job"]
@@ -456,6 +494,9 @@ def run(ctx):
                 valid, ent = res.get(i["name"], ("unknown", "unknown"))
                 if valid == "unsat" and i["name"] not in core:
                     nleaves["theory"] += 1
+                    admitted.add(i["name"])
+                elif i.get("exact"):
+                    nleaves["exact"] += 1
                     admitted.add(i["name"])
                 elif ent == "unsat" or valid == "unsat":
                     nleaves[i["kind"]] += 1
